@@ -322,6 +322,7 @@ def _nonfinite_binop(s, o, op):
 
 
 SQRT_OF = {}
+PRODUCT_RULES = []      # (a, b, rhs): hypotheses a*b == rhs registered by dependency contracts (used by the normaliser); cleared per job
 
 
 def def_sqrt(t):
